@@ -167,6 +167,26 @@ def register(OPS, drv):
             names.append("!" + type(e).__name__)
         return names
 
+    def rebuild(w, tree, members, prune=True):
+        """(re)create /XT from `tree` and rewrite /XT.zip IN PLACE (same path, same inode) from `members`"""
+        top = os.path.join(w.root, ARC)
+        shutil.rmtree(top, ignore_errors=True)
+        os.makedirs(top)
+        ents = [dict(e, path=ARC + "/" + e["path"]) for e in tree]
+        absl = [e for e in ents if e.get("kind") == "symlink" and e["target"].startswith("/")]
+        drv.build_tree(w.root, [e for e in ents if e not in absl])
+        for e in absl:
+            p = os.path.join(os.fsencode(w.root), drv.s2b(e["path"]))
+            os.makedirs(os.path.dirname(p), exist_ok=True)
+            os.symlink(os.fsencode(w.root) + b"/" + ARC.encode() + drv.s2b(e["target"]), p)
+        pruned = prune_links(top) if prune else []
+        zpath = os.path.join(w.root, ARC + ".zip")
+        ino = os.stat(zpath).st_ino if os.path.exists(zpath) else None
+        write_zip(zpath, members, drv.s2b)          # ZipFile(path, "w") truncates and rewrites the same file
+        if ino is not None and os.stat(zpath).st_ino != ino:
+            raise RuntimeError("archive was not rewritten in place")
+        return sorted(pruned)
+
     def op_c16(job):
         spec = {"tree": [dict(e, path=ARC + "/" + e["path"]) for e in job.get("tree", [])] +
                         [{"path": ARC, "kind": "dir"}] + job.get("extra_root", []),
@@ -223,6 +243,9 @@ def register(OPS, drv):
                     r["log"] = [l.replace(w.tmp, "<TMP>") for l in r["log"]][-4:]
                 elif k == "handler":
                     r = {"chain": handler_chain(a["sel"], w.config)}
+                elif k == "rewrite":
+                    # the site is updated while the server keeps running
+                    r = {"pruned": rebuild(w, a["tree"], a["members"])}
                 else:
                     raise ValueError(k)
                 out["actions"].append(r)
